@@ -14,6 +14,7 @@ ID = "C04"
 LEVEL = "exploration"
 TECHNIQUE = "metamorphic non-interference: Hypothesis-generated partially observed screens and twins that differ only behind the mask are pushed through train -> distances -> scores -> selection (API and CLI) and compared bitwise; training-set and refusal oracles per model"
 RULE = (
+    "(single-agent viabilities of the interaction model are exactly 0 or 1 in a third of the rows) "
     "partially observed arity-2 screens (6..20 rows, >=1 observed and 1..4 unobserved plates whose names sort before or after the observed ones, single-agent rows present; for the interaction model the observed part "
     "holds a single-agent row for every (sample, treatment) of the screen); twin = same screen with the masked values replaced by values from {0,1,-3.5,NaN,1e300} U floats; "
     "model in {SparseDrugCombo, SparseDrugComboInteraction}, D 1..3, burn-in 0..2, 3..5 samples, 1..2 chains, n_chunks 1..4 for distances and scores, batch of 0..2 "
@@ -55,7 +56,9 @@ def _case(draw):
             if model == "SparseDrugComboInteraction" or draw(st.booleans()):
                 col = draw(st.integers(0, 1))
                 ts = [t, -1] if col == 0 else [-1, t]
-                rows.append((s, ts, "obs%d" % draw(st.integers(0, 1)), draw(val)))
+                # (interaction model: a fully lethal / ineffective single agent - exactly 0 or 1 - is a legal viability)
+                v_single = draw(st.one_of(val, val, st.sampled_from([0.0, 0.0, 1.0]))) if model == "SparseDrugComboInteraction" else draw(val)
+                rows.append((s, ts, "obs%d" % draw(st.integers(0, 1)), v_single))
     n_more = draw(st.integers(3, 10))
     for _ in range(n_more):
         s = draw(st.integers(0, ns - 1))
